@@ -76,6 +76,9 @@ type Slicer struct {
 	// Through decides how to treat a call that is not a library function with a body:
 	// return the argument indices the result derives from (nil = opaque leaf).
 	Through func(call ssa.CallInstruction, callee *ssa.Function) []int
+	// TrackExternal: external callees to record on the trail ("ext:<callee>") when the slice passes
+	// through them (opt-in; used to detect transformations of a value on its way to a sink)
+	TrackExternal func(callee *ssa.Function) bool
 	// StopAt lets a rule cut the walk at a call (returns true = make it a leaf).
 	StopAt func(call ssa.CallInstruction, callee *ssa.Function) bool
 	seen   map[sliceKey]bool
@@ -500,7 +503,7 @@ func (sl *Slicer) walkTuple(t ssa.Value, idx int, c *sctx, path string, sliced b
 			args = append([]ssa.Value{call.Call.Value}, args...)
 		}
 		for _, a := range args {
-			sub := &Slicer{P: sl.P, Root: sl.Root, MaxDepth: sl.MaxDepth, Through: sl.Through, StopAt: sl.StopAt, seen: map[sliceKey]bool{}, out: map[string]Leaf{}}
+			sub := &Slicer{P: sl.P, Root: sl.Root, MaxDepth: sl.MaxDepth, Through: sl.Through, StopAt: sl.StopAt, TrackExternal: sl.TrackExternal, seen: map[sliceKey]bool{}, out: map[string]Leaf{}}
 			sub.walk(a, c, "", false)
 			var ls []Leaf
 			var keys []string
@@ -534,6 +537,10 @@ func (sl *Slicer) walkTuple(t ssa.Value, idx int, c *sctx, path string, sliced b
 	if callee != nil && FnPkgPath(callee) == "encoding/binary" && strings.HasPrefix(callee.Name(), "Uint") {
 		// decoding primitive: record it on the trail and continue into the bytes it reads
 		sl.trail = append(sl.trail, "binary."+callee.Name())
+		defer func() { sl.trail = sl.trail[:len(sl.trail)-1] }()
+	}
+	if sl.TrackExternal != nil && callee != nil && sl.TrackExternal(callee) {
+		sl.trail = append(sl.trail, "ext:"+FnKey(callee))
 		defer func() { sl.trail = sl.trail[:len(sl.trail)-1] }()
 	}
 	if sl.Through != nil {
